@@ -99,8 +99,28 @@ pub fn gen_case(rng: &mut rand::rngs::StdRng, keys: &Keys, o: &GenOpts) -> Value
     let mut pool = Pool::default();
     let nb = rng.gen_range(1..=o.max_blocks);
     let mut authority = vec![];
-    let blocks: Vec<Value> = (0..nb).map(|i| gen_block_j(rng, keys, &mut pool, i, o, &mut authority)).collect();
-    let az = gen_az_j(rng, keys, &mut pool, o, &authority);
+    let mut blocks: Vec<Value> = (0..nb).map(|i| gen_block_j(rng, keys, &mut pool, i, o, &mut authority)).collect();
+    let mut az = gen_az_j(rng, keys, &mut pool, o, &authority);
+    // one external key signing several blocks, and authorizer elements that trust exactly that key:
+    // what they see depends on every block registered under the key
+    if nb >= 3 && rng.gen_range(0..4) == 0 {
+        let k = rng.gen_range(0..3u64);
+        let mut marked = vec![];
+        for (i, b) in blocks.iter_mut().enumerate().skip(1) {
+            if rng.gen_range(0..3) > 0 {
+                b["ext"] = json!(k);
+                let f = biscuit_auth::builder::Predicate { name: "mark".into(), terms: vec![biscuit_auth::builder::Term::Integer(i as i64)] };
+                b["facts"].as_array_mut().unwrap().push(pred_j(&f, &mut pool));
+                marked.push(f);
+            }
+        }
+        for f in marked.iter() {
+            let mut q = query_from_fact(rng, f);
+            q.scopes = vec![biscuit_auth::builder::Scope::PublicKey(keys.ext[k as usize].public())];
+            let c = biscuit_auth::builder::Check { kind: biscuit_auth::builder::CheckKind::One, queries: vec![q] };
+            az["checks"].as_array_mut().unwrap().push(check_j(&c, &mut pool, keys));
+        }
+    }
     let queries = gen_queries_j(rng, keys, &mut pool);
     json!({"op": "authz", "pool": pool.strs, "blocks": blocks, "az": az, "limits": {"f": 1000, "i": 100}, "queries": queries})
 }
